@@ -58,7 +58,7 @@ class _CtrPeek(object):
             mlo, mhi = 0, bs << ((clen - 8) * 8)
         else:
             mlo, mhi = 0, 0
-        ok = (s.counter_len == clen and s.little_endian == (1 if le else 0) and s.used_ks == used % (8 * bs)
+        ok = (s.counter_len == clen and s.little_endian == (1 if le else 0) and s.used_ks in (used % (8 * bs), (used % (8 * bs)) or (8 * bs if used else 0))
               and s.length_lo == count & 0xFFFFFFFFFFFFFFFF and s.length_hi == count >> 64
               and s.length_max_lo == mlo and s.length_max_hi == mhi
               and s.counter == s.counter_blocks + (s.counter - s.counter_blocks) and 0 <= s.counter - s.counter_blocks < bs)
